@@ -107,7 +107,7 @@ def finish_with(v: Verdict, ob: vplib.Obligations, corr_fail: List[dict], direct
 # ==========================================================================
 def check_C01(tier: str, seed: int) -> int:
     v = Verdict("C01", tier, seed, "proof")
-    ob = vplib.check_obligations("C01")
+    ob = vplib.check_obligations("C01", expected=["C01_header", "C01_header_loaded", "C01_layer", "C01_tags", "C01_slice", "C01_palette", "C01_external", "C01_tileset_hdr", "C01_userdata", "C01_cel_hdr", "C01_layer_by_name_lowest", "C01_tag_by_name_lowest", "C01_get_tag_range", "C01_iteration"])
     vplib.build_harness(["release"])
     w = Work("C01")
     try:
@@ -1551,7 +1551,7 @@ def check_C10(tier: str, seed: int) -> int:
 # ==========================================================================
 def check_C11(tier: str, seed: int) -> int:
     v = Verdict("C11", tier, seed, "proof")
-    ob = vplib.check_obligations("C11")
+    ob = vplib.check_obligations("C11", expected=["C11_new", "C11_old", "C11_scale", "C11_precedence_new_old", "C11_precedence_old_new", "C11_complete_no_palette", "C11_complete_missing", "C11_complete_load"])
     vplib.build_harness(["release", "dev"])
     w = Work("C11")
     try:
